@@ -3,6 +3,7 @@ package checks
 
 import (
 	"fmt"
+	"os"
 
 	"github.com/nuetzliches/hookaido/verifharness/storecheck"
 	"github.com/nuetzliches/hookaido/verifharness/vlib"
@@ -16,6 +17,23 @@ func C02(c *vlib.Ctx) {
 	c.Rule("PRNG operation sequences (40-120 steps) over 6-30 ids, 3 routes x 3 targets, on memory and SQLite under a virtual clock, for every entry of the limits/retention matrix; after every operation a full snapshot is diffed against the previous one by the transition monitor. distinct_nontrivial = distinct (backend, operation, result class, set of observed state transitions) tuples.")
 	c.Assume("snapshots: memory = paginated ListMessages over all five states; SQLite = read-only SQL dump on a second connection after the same API listing")
 	c.Assume("retention prune and release of expired leases are treated as legal background transitions at every step")
+	if os.Getenv("VERIF_PART") == "concurrent" {
+		// thorough tier, second pass under the race detector
+		c02Concurrent(c, 120)
+		c.CollectRaces()
+		return
+	}
+	c02Concurrent(c, c.N(6, 40))
+	for _, d := range storecheck.DirectedScenarios() {
+		for _, be := range []string{"memory", "sqlite"} {
+			if d.MemoryOnly && be != "memory" {
+				continue
+			}
+			storecheck.RunSequence(c, vlib.Derive(c.Seed, "C02d", d.Name, be), storecheck.RunCfg{
+				Backends: []string{be}, Store: d.Cfg, Script: d.Script, Label: "C02/directed/" + be + "/" + d.Name, Props: map[string]bool{"C02": true},
+			})
+		}
+	}
 	seqs := c.N(18, 300)
 	cfgs := storecheck.ConfigMatrix()
 	for _, be := range []string{"memory", "sqlite"} {
